@@ -172,6 +172,25 @@ theorem hexCol_until (o : Opts) (W : Nat) (indent : List Char) (root : List UInt
   simp only [dataColumns, ht, ne_eq, not_false_eq_true, if_true]
   exact append_until _ _ _
 
+/-- every address line of a value is at most the value's stop byte count -/
+theorem addr_line_le (o : Opts) (rootBits start len : Nat) (hlb : 0 < o.lineBytes) (hlen : 0 < len)
+    (i : Nat) (hi : i < (geom o rootBits start len).addrLines) :
+    (geom o rootBits start len).startLineByte + i * o.lineBytes ≤ (start + len + 7) / 8 := by
+  have f8 := (geom_fields o rootBits start len).2.2.2.2.2.2.2.1
+  have f9 := (geom_fields o rootBits start len).2.2.2.2.2.2.2.2
+  rw [f8]; rw [f9] at hi
+  have b1 := (lastDisplayBit_bounds o start len hlen).1
+  have b2 := (lastDisplayBit_bounds o start len hlen).2.1
+  generalize lastDisplayBitOf o start len = ldb at hi b1 b2
+  have hm : start / 8 / o.lineBytes ≤ ldb / 8 / o.lineBytes :=
+    Nat.div_le_div_right (Nat.div_le_div_right b1)
+  have h1 : start / 8 / o.lineBytes * o.lineBytes + i * o.lineBytes = (start / 8 / o.lineBytes + i) * o.lineBytes := by
+    rw [Nat.add_mul]
+  have h2 : (start / 8 / o.lineBytes + i) * o.lineBytes ≤ ldb / 8 / o.lineBytes * o.lineBytes :=
+    Nat.mul_le_mul_right _ (by omega)
+  have h3 : ldb / 8 / o.lineBytes * o.lineBytes ≤ ldb / 8 := Nat.div_mul_le_self _ _
+  omega
+
 theorem addrText_length (o : Opts) (colW d a : Nat) (h : 2 * d + digitsNeeded o.addrbase a ≤ colW) :
     (addrText o colW d a).length = colW + d := by
   unfold addrText rootIndent
